@@ -15,6 +15,8 @@ pub enum LockId {
     SalsaRevision,
     /// the `RwLock<Vfs>` shared by the main loop and its tasks.
     Vfs,
+    /// any other lock shimmed in the lsp crate, identified by its address.
+    Other(usize),
 }
 
 /// Opaque guard; dropping it releases the ghost lock.
